@@ -20,44 +20,63 @@ func c14Sweeps() []c14Sweep {
 		sw = append(sw, c14Sweep{Scenario: sc, L: l, Kv: kv, Ka: ka, Fam: fam, Full: full})
 	}
 	every := []string{"single2", "twin", "shared", "three", "heights", "formats", "unverifiable", "single"}
-	L := vr.Pick(5, 7)
-	// 1. complete verdict histories of length L over the lean alphabet, honest in-order network
-	for _, sc := range every[:7] {
-		add(sc, L, L, 0, 0, false)
-	}
-	add("single", vr.Pick(4, 6), vr.Pick(4, 6), 0, 0, false)
-	// 2. network schedules proper: no verdict deviation, up to 3 (4) network deviations, every event family
-	add("single2", L, 0, 3, all|c14FamAtOffer|c14FamAtInfo, false)
-	add("single", L, 0, vr.Pick(2, 3), all|c14FamAtOffer, false)
-	add("single", L, 0, vr.Pick(3, 5), c14FamOrder, false)
-	add("twin", L, 0, vr.Pick(2, 3), all|c14FamAtOffer, false)
-	// 3. <= 2 verdict deviations x <= 1 network deviation, every family, every scenario with one-chunk/two-chunk snapshots
-	for _, sc := range []string{"single2", "twin", "shared", "three"} {
-		add(sc, L, 2, 1, all|c14FamAtOffer|c14FamAtInfo, false)
-	}
-	// 4. <= 1 verdict deviation x <= 2 network deviations
-	add("single2", L, 1, 2, c14FamOrder|c14FamBad|c14FamAtOffer, false)
-	add("shared", L, 1, 2, all|c14FamAtOffer, false)
-	add("three", L, 1, 2, all|c14FamAtOffer, false)
-	// 5. full verdict alphabet (result x refetch set x reject set)
-	add("single2", L, 2, 0, 0, true)
-	add("shared", L, 2, 0, 0, true)
-	if vr.Thorough() {
-		for _, sc := range []string{"heights", "formats", "unverifiable", "single"} {
+	if !vr.Thorough() {
+		L := 5
+		// 1. complete verdict histories of length 5 over the lean alphabet, honest in-order network
+		for _, sc := range every[:7] {
+			add(sc, L, L, 0, 0, false)
+		}
+		add("single", 4, 4, 0, 0, false)
+		// 2. network schedules proper: no verdict deviation, up to 3 network deviations, every event family
+		add("single2", L, 0, 3, all|c14FamAtOffer|c14FamAtInfo, false)
+		add("single", L, 0, 2, all|c14FamAtOffer, false)
+		add("single", L, 0, 3, c14FamOrder, false)
+		add("twin", L, 0, 2, all|c14FamAtOffer, false)
+		// 3. <= 2 verdict deviations x <= 1 network deviation, every family
+		for _, sc := range []string{"single2", "twin", "shared", "three"} {
 			add(sc, L, 2, 1, all|c14FamAtOffer|c14FamAtInfo, false)
 		}
-		for _, sc := range []string{"single2", "twin", "heights", "formats", "unverifiable", "single"} {
-			add(sc, L, 1, 2, all|c14FamAtOffer, false)
-		}
-		for _, sc := range []string{"single2", "shared", "twin"} {
-			add(sc, L, 1, 1, c14FamOrder|c14FamAdv, true)
-			add(sc, L, 3, 0, 0, true)
-		}
-		for _, sc := range every {
-			add(sc, L, 3, 1, c14FamOrder|c14FamAdv|c14FamRemove, false)
-			add(sc, L, 2, 2, all|c14FamAtOffer, false)
-		}
+		// 4. <= 1 verdict deviation x <= 2 network deviations
+		add("single2", L, 1, 2, c14FamOrder|c14FamBad|c14FamAtOffer, false)
+		add("shared", L, 1, 2, all|c14FamAtOffer, false)
+		add("three", L, 1, 2, all|c14FamAtOffer, false)
+		// 5. full verdict alphabet (result x refetch set x reject set)
+		add("single2", L, 2, 0, 0, true)
+		add("shared", L, 2, 0, 0, true)
+		return sw
 	}
+	// thorough: the same shapes one notch deeper, simplest first; the sweeps whose size is least predictable come last
+	L := 7
+	// 1. complete verdict histories: length 7 on the scenarios with short snapshots, length 6 on the others
+	for _, sc := range []string{"single2", "three", "shared"} {
+		add(sc, 7, 7, 0, 0, false)
+	}
+	for _, sc := range []string{"twin", "heights", "formats", "unverifiable", "single"} {
+		add(sc, 6, 6, 0, 0, false)
+	}
+	// 2. network schedules proper
+	add("single2", L, 0, 3, all|c14FamAtOffer|c14FamAtInfo, false)
+	add("single", L, 0, 3, all|c14FamAtOffer, false)
+	add("single", L, 0, 4, c14FamOrder, false)
+	add("twin", L, 0, 3, all|c14FamAtOffer, false)
+	add("single2", L, 0, 4, c14FamOrder|c14FamBad|c14FamAtOffer, false)
+	// 3. <= 2 verdict deviations x <= 1 network deviation and <= 1 x <= 2, every family, every scenario
+	for _, sc := range every {
+		add(sc, L, 2, 1, all|c14FamAtOffer|c14FamAtInfo, false)
+	}
+	for _, sc := range every {
+		add(sc, L, 1, 2, all|c14FamAtOffer, false)
+	}
+	// 4. full verdict alphabet
+	for _, sc := range []string{"single2", "shared", "twin"} {
+		add(sc, L, 2, 0, 0, true)
+		add(sc, L, 1, 1, c14FamOrder|c14FamAdv, true)
+	}
+	// 5. deeper mixes on the small scenarios
+	for _, sc := range []string{"single2", "shared", "three"} {
+		add(sc, L, 3, 1, c14FamOrder|c14FamAdv|c14FamRemove, false)
+	}
+	add("shared", L, 2, 2, all|c14FamAtOffer, false)
 	return sw
 }
 
@@ -84,7 +103,7 @@ func c14Judge(r *vr.Report, res *c14Result, truth c14Truth, count bool) (key, wh
 }
 
 func TestVerifC14Sync(t *testing.T) {
-	r := vr.Start("C14", "sync", 100*time.Second, 18*time.Minute)
+	r := vr.Start("C14", "sync", 100*time.Second, 20*time.Minute)
 	defer r.Finish()
 	r.Rule = "stateless depth-first enumeration of choice vectors: one choice per app verdict (offer: 5 results; chunk: result x refetch set x reject-sender set, " +
 		"17-option lean or 80-option full alphabet; info: true / wrong hash / height-1 / wrong version / height+1) and per network event at every stable point of the syncer goroutine " +
